@@ -40,7 +40,7 @@ partial def monitorLoop (h : IO.FS.Stream) (out : IO.FS.Stream) (b : Fosite.Spec
   else
     let f := fields op
     let o := Fosite.Spec.Monitor.outSeg obs
-    let hits := Fosite.Spec.Monitor.check b f o
+    let hits := Fosite.Spec.Monitor.check b f o ++ Fosite.Spec.Monitor.taintHits obs
     out.putStrLn (" ".intercalate hits)
     monitorLoop h out (Fosite.Spec.Monitor.update b f o)
 
